@@ -270,6 +270,26 @@ class Opaque(object):
         return '<%s %s>' % (self.kind, ', '.join('%s=%r' % kv for kv in sorted(self.f.items(), key=lambda kv: kv[0])[:4]))
 
 
+def is_plain(x):
+    """a value of the interpreted program itself (numbers, strings, containers of such, program objects, numpy arrays of them) as opposed
+    to a value of the MODEL (opaque terms, abstract arrays, symbolic lists, contract objects): a Python TypeError / AttributeError / IndexError
+    raised while operating on a model value is a gap of the model, not an exception of the program"""
+    import numpy as _np
+    if x is None or isinstance(x, (bool, int, float, complex, str, bytes, Fraction, P, slice, type(Ellipsis))):
+        return True
+    if isinstance(x, Obj):
+        return x.cls is not None
+    if isinstance(x, (list, tuple, set, frozenset)):
+        return all(is_plain(y) for y in x)
+    if isinstance(x, dict):
+        return all(is_plain(y) for y in x.values())
+    if isinstance(x, _np.ndarray):
+        return x.dtype != object or all(is_plain(y) for y in x.reshape(-1)[:50])
+    if isinstance(x, (ClassVal, Func, BoundMethod)) if 'ClassVal' in globals() else False:
+        return True
+    return False
+
+
 class MemView(Opaque):
     """a Cython typed memoryview handed back to Python (``cdef double [:] x ... return x``): it supports indexing and the buffer
     protocol (numpy converts it) but NO arithmetic -- ``0 + view`` or ``view * 2`` is a TypeError of the program"""
@@ -1222,8 +1242,12 @@ class Interp(object):
         except KeyError as ex:
             raise SymRaise('KeyError', (k,), node)
         except IndexError as ex:
+            if not is_plain(o):
+                raise CheckerError('line %d: index %r of %s is not modelled (%s)' % (node.lineno, k, type(o).__name__, ex))
             raise SymRaise('IndexError', (str(ex),), node)
         except TypeError as ex:
+            if not (is_plain(o) and is_plain(k)):
+                raise CheckerError('line %d: subscript of %s with %s is not modelled (%s)' % (node.lineno, type(o).__name__, type(k).__name__, ex))
             raise SymRaise('TypeError', (str(ex),), node)
 
     def ex_Tuple(self, e, fr):
@@ -1439,6 +1463,8 @@ class Interp(object):
         try:
             return compare(sym, a, b)
         except TypeError as ex:
+            if not (is_plain(a) and is_plain(b)):
+                raise CheckerError('line %s: comparison %s between %s and %s is not modelled' % (getattr(node, 'lineno', '?'), sym, type(a).__name__, type(b).__name__))
             raise SymRaise('TypeError', (str(ex),), node)
 
     def ex_BinOp(self, e, fr):
@@ -1646,6 +1672,9 @@ class Interp(object):
                 # exceptions of the interpreted program
                 if isinstance(ex, TypeError) and 'symbolic' in str(ex):
                     raise CheckerError('line %s: %s' % (getattr(node, 'lineno', '?'), ex))
+                if isinstance(ex, (TypeError, AttributeError)) and not (all(is_plain(a_) for a_ in args) and all(is_plain(v_) for v_ in kwargs.values())):
+                    # a builtin / shim applied to a value of the model: not modelled, rather than an exception of the program
+                    raise CheckerError('line %s: %s applied to a model value is not modelled (%s)' % (getattr(node, 'lineno', '?'), getattr(f, '__name__', f), ex))
                 raise SymRaise(ex.__class__.__name__, (str(ex),), node)
         raise SymRaise('TypeError', ('%r is not callable' % (f,),), node)
 
@@ -1835,6 +1864,8 @@ def make_builtins(interp):
             return P.const(x)
         if isinstance(x, str):
             return P.const(float(x))
+        if not is_plain(x):
+            raise CheckerError('float() of a model value %s' % type(x).__name__)
         raise SymRaise('TypeError', ('float() argument: %r' % (type(x).__name__,),))
 
     def b_int(x):
@@ -1852,6 +1883,8 @@ def make_builtins(interp):
             raise CheckerError('int() of symbolic real')
         if isinstance(x, str):
             return int(x)
+        if not is_plain(x):
+            raise CheckerError('int() of a model value %s' % type(x).__name__)
         raise SymRaise('TypeError', ('int() argument',))
 
     def b_abs(x):
